@@ -10,7 +10,7 @@
    3. Executable wrappers on the list instance LM (option bigQ entries), used by the correspondence. *)
 From Coq Require Import ZArith List Bool.
 From Bignums Require Import BigQ.
-From Verif Require Import lib.MxC18 gen.RedVarGen.
+From Verif Require Import lib.MxC18 gen.RedVarGen model.Spectral.
 Import ListNotations.
 
 (* ================================================================== *)
@@ -278,11 +278,25 @@ Definition run_lyap_residual (n q : nat) (A S Om : lmx) : lmx :=
 Definition run_acov (n q : nat) (A Om : lmx) (upto : nat) : list lmx :=
   acov_from (M := LM) (n := n) (q := q) (run_companion_T n q A) Om upto.
 
+(* spectral radius and stability verdict (model/Spectral.v) on the eigenvalues numpy.linalg.eigvals returned, given as
+   exact (re, im) pairs.  The executable instance works with SQUARED moduli re^2 + im^2 (no square root in Q); squaring
+   is an order embedding of the non-negative numbers (proofs/SpectralProofs.v: max_of_embedding, Qsquare_embeds), and
+   1^2 = 1, so the maximum is the square of the reported one and the verdict is the same. *)
+Definition vleb (a b : V) : bool := match a, b with Some x, Some y => qle x y | _, _ => false end.
+Definition vnormsq (z : V * V) : V := vadd (vmul (fst z) (fst z)) (vmul (snd z) (snd z)).
+Definition run_max_abs_sq (eigs : list (V * V)) : option V :=
+  max_abs_eigenvalue vnormsq vleb vofnat (fun l => hd (None, None) l) eigs.
+Definition run_is_stable (eigs : list (V * V)) : option bool :=
+  is_stable vnormsq vleb vofnat (fun l => hd (None, None) l) eigs.
+
 (* ================================================================== *)
 (* 4. Comparison of one implementation run with the model (correspondence case files)   *)
 (* ================================================================== *)
 Record acc_expect := mkAcc {
-  x_mean : lmx; x_poly : list V; x_T : lmx; x_P : lmx; x_K : lmx; x_Om : lmx; x_acov : list lmx }.
+  x_mean : lmx; x_poly : list V; x_T : lmx; x_P : lmx; x_K : lmx; x_Om : lmx; x_acov : list lmx;
+  x_eigs : list (V * V);        (* get_eigenvalues, exact (re, im) *)
+  x_maxabs : V;                 (* get_max_abs_eigenvalue *)
+  x_stable : option bool        (* get_stability; None: the spectral radius is within rounding of 1, verdict not compared *) }.
 
 Record expect := mkExpect {
   x_y0 : lmx; x_y1 : lmx; x_x : lmx; x_k : lmx; x_where : list bool; x_fitted : list nat;
@@ -298,6 +312,7 @@ Definition nats_eq (a b : list nat) : bool := all2 Nat.eqb a b.
 (* codes: 1 stacking, 2 mask, 3 fitted positions, 4 OLS inputs (exact);  5 A, 6 B, 7 c, 8 residuals, 9 covariance,
    10 mean, 11 characteristic polynomial of the companion matrix vs reported eigenvalues, 12 companion matrices,
    13 Lyapunov equation at the recorded solution, 14 autocovariances, 15 simulation (tolerance);
+   16 reported maximum modulus vs the model's spectral radius of the reported eigenvalues, 17 stability verdict;
    90/91 "no data" verdicts differ *)
 Definition check (tol : bigQ) (n q m k : nat) (omit_missing dof : bool) (priors : list prior) (ys xs : lmx)
     (e : option expect) : list nat :=
@@ -327,6 +342,15 @@ Definition check (tol : bigQ) (n q m k : nat) (omit_missing dof : bool) (priors 
                          && mx_close tol (run_companion_K n q k (o_c o)) (x_K a))
              ++ flag 13 (mx_close tol (lzip vsub (x_Om a) (run_lyap_residual n q (o_A o) (o_cov o) (x_Om a))) (x_Om a))
              ++ flag 14 (all2 (mx_close tol) (run_acov n q (o_A o) (x_Om a) (length (x_acov a) - 1)) (x_acov a))
+             ++ flag 16 (match run_max_abs_sq (x_eigs a) with
+                         | Some r => vclose tol r (vmul (x_maxabs a) (x_maxabs a))
+                         | None => false
+                         end)
+             ++ flag 17 (match x_stable a, run_is_stable (x_eigs a) with
+                         | Some b, Some b' => Bool.eqb b b'
+                         | Some _, None => false
+                         | None, _ => true
+                         end)
          | None => []
          end
       ++ match x_sim e with
